@@ -55,15 +55,15 @@ def ev(e):
     return "Spawn" if e[0] == "Spawn" else f"Step {e[1]} {e[2]}"
 
 
-def run_model(runs, restore):
+def run_model(runs, flags):
     """returns for each run the model's summary (outcome codes+swapped, fs, compiles) and
     whether the trace is 'good' (no fault at B6)."""
     path = os.path.join(common.GEN, "Jit_cases.v")
     txt = ("From Coq Require Import List Bool Arith.\nFrom FFCX Require Import Jit.\nImport ListNotations.\nSet Printing Width 1000000.\n"
-           f"Definition R := {'true' if restore else 'false'}.\n"
+           f"Definition R := {'true' if flags[0] else 'false'}.\nDefinition AT := {'true' if flags[1] else 'false'}.\n"
            "Definition traces : list (list event) := [\n " +
            ";\n ".join("[" + "; ".join(ev(e) for e in r["events"]) + "]" for r in runs) + "].\n"
-           f"Eval vm_compute in map (fun t => summary (run {TIMEOUT} R init t)) traces.\n")
+           f"Eval vm_compute in map (fun t => summary (run {TIMEOUT} R AT init t)) traces.\n")
     open(path, "w").write(txt)
     out = common.coqc_many([path], timeout=600)[path]
     for ext in (".vo", ".vok", ".vos", ".glob"):
